@@ -11,32 +11,46 @@
      cmd/keymasterd/roleRequestingCert.go  isAutomationAdmin, roleRequetingCertGenHandler,
                                       parseRoleCertGenParams
 
-   Names (users, groups, token names) are numbers; 0 is the empty string.  Session levels are the
-   AuthType bit masks of Model/Auth.v.  The verdict of IsAdminUser for the authenticated user
+   USER NAMES ARE BYTE STRINGS, compared byte by byte as Go's == does on the names as stored
+   (the row key of user_profile, the subject of the session, the form value / path element):
+   "jsmith" and "JSmith" are two accounts unless reprocessUsername folded them at login, which
+   it does iff disable_username_normalization is off (a configuration field here).  Group names
+   and the names given to tokens stay numbers (0 = a name the pattern refuses / the empty
+   string).  Session levels are the AuthType bit masks of Model/Auth.v.  The verdict of IsAdminUser for the authenticated user
    (Model/AdminCache.v) and the directory's answer about the requested automation identity are
    inputs of a request.  Cryptographic verification of a submitted registration / one-time code
    is an input (`proof`).  A stored profile is reduced to what the handlers read and write. *)
 From Coq Require Import ZArith NArith List Bool.
-From KM Require Import Model.Auth.
+From KM Require Import Base.Bytes Model.Auth.
 Import ListNotations.
 Open Scope N_scope.
 
 Definition mem (x : N) (l : list N) : bool := existsb (N.eqb x) l.
 
+(* user names *)
+Definition name := bs.
+Definition empty (n : name) : bool := match n with [] => true | _ :: _ => false end.
+Definition memn (x : name) (l : list name) : bool := existsb (bs_eqb x) l.
+
+(* app.go reprocessUsername: strings.ToLower unless normalisation is disabled (names are ASCII) *)
+Definition lower_byte (c : N) : N := if (65 <=? c) && (c <=? 90) then c + 32 else c.
+Definition normalise (disable : bool) (n : name) : name := if disable then n else map lower_byte n.
+
 Record cfg := {
-  admin_users : list N;             (* Config.Base.AdminUsers *)
+  admin_users : list name;          (* Config.Base.AdminUsers *)
   admin_groups : list N;            (* Config.Base.AdminGroups *)
-  automation_users : list N;        (* Config.Base.AutomationUsers *)
+  automation_users : list name;     (* Config.Base.AutomationUsers *)
   automation_user_groups : list N;  (* Config.Base.AutomationUserGroups *)
-  automation_admins : list N;       (* Config.Base.AutomationAdmins *)
-  webui_required : N }.             (* getRequiredWebUIAuthLevel() *)
+  automation_admins : list name;    (* Config.Base.AutomationAdmins *)
+  webui_required : N;               (* getRequiredWebUIAuthLevel() *)
+  disable_normalisation : bool }.   (* Config.Base.DisableUsernameNormalization *)
 
 (* the directory (getUserGroups): None = error, Some groups *)
 Definition answer := option (list N).
 
 (* _IsAdminUser *)
-Definition raw_is_admin (c : cfg) (u : N) (dir : answer) : option bool :=
-  if mem u (admin_users c) then Some true
+Definition raw_is_admin (c : cfg) (u : name) (dir : answer) : option bool :=
+  if memn u (admin_users c) then Some true
   else match admin_groups c with
        | [] => Some false
        | _ :: _ =>
@@ -47,16 +61,16 @@ Definition raw_is_admin (c : cfg) (u : N) (dir : answer) : option bool :=
        end.
 
 (* isAutomationUser: the directory is consulted even when no automation group is configured *)
-Definition is_automation_user (c : cfg) (id : N) (dir : answer) : option bool :=
-  if mem id (automation_users c) then Some true
+Definition is_automation_user (c : cfg) (id : name) (dir : answer) : option bool :=
+  if memn id (automation_users c) then Some true
   else match dir with
        | None => None
        | Some gs => Some (existsb (fun g => mem g gs) (automation_user_groups c))
        end.
 
 (* isAutomationAdmin, given IsAdminUser's verdict *)
-Definition is_automation_admin (c : cfg) (adm : bool) (u : N) : bool :=
-  adm || mem u (automation_admins c).
+Definition is_automation_admin (c : cfg) (adm : bool) (u : name) : bool :=
+  adm || memn u (automation_admins c).
 
 (* IsAdminUserAndU2F, given IsAdminUser's verdict *)
 Definition admin_and_u2f (adm : bool) (level : N) : bool := adm && hasb level bU2F.
@@ -84,26 +98,26 @@ Inductive op :=
 Inductive decision := Allow | Deny.
 
 (* whose profile the handler loads (and saves) *)
-Definition effective_target (actor target : N) (o : op) : N :=
+Definition effective_target (actor target : name) (o : op) : name :=
   match o with
-  | ViewProfile => if target =? 0 then actor else target
+  | ViewProfile => if empty target then actor else target
   | TOTPGenerate | TOTPValidate => actor
   | _ => target
   end.
 
 (* the authorization test of each handler, as written there *)
-Definition authorize (c : cfg) (adm : bool) (actor level target : N) (o : op) : decision :=
+Definition authorize (c : cfg) (adm : bool) (actor : name) (level : N) (target : name) (o : op) : decision :=
   match o with
   | ViewProfile =>
-      if target =? 0 then Allow                     (* assumedUser == "" -> own profile *)
+      if empty target then Allow                     (* assumedUser == "" -> own profile *)
       else if negb adm then Deny                    (* !state.IsAdminUser(authData.Username) *)
       else Allow
   | ManageU2F _ | ManageTOTP _ =>
       (* !hasAdminRights && assumedUser != authData.Username *)
-      if negb (admin_and_u2f adm level) && negb (target =? actor) then Deny else Allow
+      if negb (admin_and_u2f adm level) && negb (bs_eqb target actor) then Deny else Allow
   | U2FRegBegin | U2FRegFinish | WARegBegin | WARegFinish =>
       (* !IsAdminUserAndU2F(...) && authData.Username != assumedUser *)
-      if negb (admin_and_u2f adm level) && negb (actor =? target) then Deny else Allow
+      if negb (admin_and_u2f adm level) && negb (bs_eqb actor target) then Deny else Allow
   | TOTPGenerate | TOTPValidate => Allow            (* only authData.Username is ever used *)
   | ListUsers | AddUser | DeleteUser | NewBootstrapOTP =>
       if negb adm then Deny else Allow              (* sendFailureToClientIfNonAdmin *)
@@ -117,7 +131,20 @@ Definition authorize (c : cfg) (adm : bool) (actor level target : N) (o : op) : 
    client-certificate chain, and an IP-restricted automation certificate (role CA; none of these
    endpoints asks for AuthTypeIPCertificate, so it never lets anybody in here).  Model/Auth.v has
    the full checkAuth; Proofs/Authz.v relates the two *)
-Inductive cred := NoCred | Session (user level : N) | KMCert (user : N) | IPCert (user : N).
+Inductive cred :=
+| NoCred
+| Session (user : name) (level : N)   (* a valid session cookie with this subject *)
+| KMCert (user : name)
+| IPCert (user : name)
+| Login (typed : name) (level : N).   (* the session somebody got by logging in with this spelling of
+                                         the name: the subject is what reprocessUsername made of it *)
+
+(* the credential as checkAuth sees it *)
+Definition resolve (c : cfg) (cr : cred) : cred :=
+  match cr with
+  | Login typed l => Session (normalise (disable_normalisation c) typed) l
+  | x => x
+  end.
 
 Definition required_for (c : cfg) (o : op) : N :=
   match o with
@@ -126,17 +153,20 @@ Definition required_for (c : cfg) (o : op) : N :=
   | _ => webui_required c
   end.
 
-Definition authenticate (required : N) (cr : cred) : option (N * N) :=
+Definition authenticate (required : N) (cr : cred) : option (name * N) :=
   match cr with
   | NoCred => None
   | Session u l => if hasb l required then Some (u, l) else None
   | KMCert u => if hasb required bKMX509 then Some (u, bKMX509) else None
   | IPCert _ => None
+  | Login _ _ => None                 (* resolved before: see [resolve] and [step] *)
   end.
 
 (* ------------------------------------------------------------------ profile store *)
 
-Record tok := { tk_name : N; tk_enabled : bool }.
+(* the name of a token: a number (0 = empty / never given), or "Registered by <actor>" *)
+Inductive tname := TN (n : N) | TRegBy (actor : name).
+Record tok := { tk_name : tname; tk_enabled : bool }.
 Definition tokens := list (Z * tok).                (* map[int64]*...AuthData, sorted by index *)
 
 Record profile := {
@@ -153,26 +183,26 @@ Definition empty_profile : profile :=
   {| p_u2f := []; p_wa := []; p_totp := []; p_regchal := false; p_pending_totp := false;
      p_wa_session := false; p_bootstrap := false; p_registered := false |}.
 
-Definition store := list (N * profile).             (* table user_profile *)
+Definition store := list (name * profile).          (* table user_profile: the key is the name as stored *)
 
-Fixpoint find (s : store) (u : N) : option profile :=
+Fixpoint find (s : store) (u : name) : option profile :=
   match s with
   | [] => None
-  | (k, p) :: r => if N.eqb k u then Some p else find r u
+  | (k, p) :: r => if bs_eqb k u then Some p else find r u
   end.
 
 (* LoadUserProfile: the default profile when there is no row *)
-Definition load (s : store) (u : N) : profile :=
+Definition load (s : store) (u : name) : profile :=
   match find s u with Some p => p | None => empty_profile end.
 
-Fixpoint remove (s : store) (u : N) : store :=
+Fixpoint remove (s : store) (u : name) : store :=
   match s with
   | [] => []
-  | (k, p) :: r => if N.eqb k u then remove r u else (k, p) :: remove r u
+  | (k, p) :: r => if bs_eqb k u then remove r u else (k, p) :: remove r u
   end.
 
 (* SaveUserProfile (insert or replace) / DeleteUserProfile *)
-Definition save (s : store) (u : N) (p : profile) : store := (u, p) :: remove s u.
+Definition save (s : store) (u : name) (p : profile) : store := (u, p) :: remove s u.
 
 Fixpoint tfind (l : tokens) (i : Z) : option tok :=
   match l with
@@ -193,13 +223,13 @@ Fixpoint tdel (l : tokens) (i : Z) : tokens :=
 (* the index a new token gets (CreatedAt.Unix()); the correspondence canonicalises it *)
 Definition fresh_index : Z := 1000000%Z.
 (* "Registered by <actor>" *)
-Definition registered_by (actor : N) : N := 1000 + actor.
+Definition registered_by (actor : name) : tname := TRegBy actor.
 
 (* the switch on "action" of the two token managers; name 0 stands for a name the pattern
    ^[-/.a-zA-Z0-9_ ]+$ refuses *)
 Definition apply_action (a : action) (name : N) (l : tokens) (i : Z) (t : tok) : option tokens :=
   match a with
-  | Update => if name =? 0 then None else Some (tset l i {| tk_name := name; tk_enabled := tk_enabled t |})
+  | Update => if name =? 0 then None else Some (tset l i {| tk_name := TN name; tk_enabled := tk_enabled t |})
   | Disable => Some (tset l i {| tk_name := tk_name t; tk_enabled := false |})
   | Enable => Some (tset l i {| tk_name := tk_name t; tk_enabled := true |})
   | Delete => Some (tdel l i)
@@ -221,7 +251,7 @@ Record request := {
   r_cred : cred;
   r_post : bool;                 (* method = POST *)
   r_op : op;
-  r_target : N;                  (* username / path element / identity; 0 = absent or empty *)
+  r_target : name;               (* username / path element / identity; [] = absent or empty *)
   r_index : option Z;            (* form value "index": None = absent or not a number *)
   r_name : N;                    (* form value "name" *)
   r_proof : proof;               (* finish steps *)
@@ -244,7 +274,7 @@ Definition set_totp (p : profile) (l : tokens) : profile :=
 
 (* what the handler does once authentication and authorization have passed; `t` is the
    effective target whose profile is loaded *)
-Definition perform (c : cfg) (s : store) (r : request) (actor t : N) : store * resp :=
+Definition perform (c : cfg) (s : store) (r : request) (actor t : name) : store * resp :=
   let p := load s t in
   match r_op r with
   | ViewProfile => (s, ROk)
@@ -290,7 +320,7 @@ Definition perform (c : cfg) (s : store) (r : request) (actor t : N) : store * r
           if negb (p_regchal p) then (s, RBad)               (* "challenge not found" *)
           else match pr with
                | PGood =>
-                   let name := if actor =? t then 0 else registered_by actor in
+                   let name := if bs_eqb actor t then TN 0 else registered_by actor in
                    (save s t {| p_u2f := p_u2f p ++ [(fresh_index, {| tk_name := name; tk_enabled := true |})];
                                 p_wa := p_wa p; p_totp := p_totp p; p_regchal := false;
                                 p_pending_totp := p_pending_totp p; p_wa_session := p_wa_session p;
@@ -306,7 +336,7 @@ Definition perform (c : cfg) (s : store) (r : request) (actor t : N) : store * r
       if negb (p_wa_session p) then (s, RErr)                (* nil dereference: the handler panics *)
       else match r_proof r with
            | PGood =>
-               (save s t (set_wa p (p_wa p ++ [(fresh_index, {| tk_name := 0; tk_enabled := true |})])), ROk)
+               (save s t (set_wa p (p_wa p ++ [(fresh_index, {| tk_name := TN 0; tk_enabled := true |})])), ROk)
            | _ => (s, RBad)
            end
   | TOTPGenerate =>
@@ -321,7 +351,7 @@ Definition perform (c : cfg) (s : store) (r : request) (actor t : N) : store * r
           else match pr with
                | PGood =>
                    (save s t {| p_u2f := p_u2f p; p_wa := p_wa p;
-                                p_totp := p_totp p ++ [(fresh_index, {| tk_name := 0; tk_enabled := true |})];
+                                p_totp := p_totp p ++ [(fresh_index, {| tk_name := TN 0; tk_enabled := true |})];
                                 p_regchal := p_regchal p; p_pending_totp := false;
                                 p_wa_session := p_wa_session p; p_bootstrap := p_bootstrap p;
                                 p_registered := true |}, ROk)
@@ -330,15 +360,15 @@ Definition perform (c : cfg) (s : store) (r : request) (actor t : N) : store * r
       end
   | ListUsers => (s, ROk)
   | AddUser =>
-      if t =? 0 then (s, RBad)                               (* ensurePostAndGetUsername *)
+      if empty t then (s, RBad)                               (* ensurePostAndGetUsername *)
       else match find s t with
            | Some _ => (s, RBad)                             (* "User exists in DB" *)
            | None => (save s t empty_profile, ROk)
            end
   | DeleteUser =>
-      if t =? 0 then (s, RBad) else (remove s t, ROk)
+      if empty t then (s, RBad) else (remove s t, ROk)
   | NewBootstrapOTP =>
-      if t =? 0 then (s, RBad)
+      if empty t then (s, RBad)
       else match find s t with
            | None => (s, RBad)                               (* "User does not exist in DB" *)
            | Some q =>
@@ -352,7 +382,7 @@ Definition perform (c : cfg) (s : store) (r : request) (actor t : N) : store * r
                end
            end
   | RoleCert =>
-      if t =? 0 then (s, RBad)                               (* "Missing identity parameter" *)
+      if empty t then (s, RBad)                               (* "Missing identity parameter" *)
       else match is_automation_user c t (r_dir_target r) with
            | None => (s, RErr)
            | Some false => (s, RBad)                         (* "requested role is not automation user" *)
@@ -367,10 +397,12 @@ Definition post_before_authz (o : op) : bool :=
   | ManageU2F _ => true   (* since fix 2b03847: tokens are only changed by POST *)
   | _ => false end.
 Definition post_after_authz (o : op) : bool :=
-  match o with AddUser | DeleteUser | NewBootstrapOTP | RoleCert => true | _ => false end.
+  match o with AddUser | DeleteUser | NewBootstrapOTP | RoleCert => true
+  | U2FRegFinish | WARegFinish => true   (* since fix 6ebb558: a registration is only finished by POST *)
+  | _ => false end.
 
 Definition step (c : cfg) (s : store) (r : request) : store * resp :=
-  match authenticate (required_for c (r_op r)) (r_cred r) with
+  match authenticate (required_for c (r_op r)) (resolve c (r_cred r)) with
   | None => (s, RDenied)
   | Some (actor, level) =>
       if post_before_authz (r_op r) && negb (r_post r) then (s, RBad)
@@ -390,7 +422,13 @@ Fixpoint run (c : cfg) (s : store) (l : list request) : store :=
 
 (* ------------------------------------------------------------------ comparison helpers for
    the correspondence case files *)
-Definition tok_eqb (a b : tok) : bool := (tk_name a =? tk_name b) && Bool.eqb (tk_enabled a) (tk_enabled b).
+Definition tname_eqb (a b : tname) : bool :=
+  match a, b with
+  | TN x, TN y => x =? y
+  | TRegBy x, TRegBy y => bs_eqb x y
+  | _, _ => false
+  end.
+Definition tok_eqb (a b : tok) : bool := tname_eqb (tk_name a) (tk_name b) && Bool.eqb (tk_enabled a) (tk_enabled b).
 Fixpoint tokens_eqb (a b : tokens) : bool :=
   match a, b with
   | [], [] => true
@@ -409,7 +447,7 @@ Definition oprofile_eqb (a b : option profile) : bool :=
   | _, _ => false
   end.
 (* two stores agree on every user of a list *)
-Definition stores_agree (us : list N) (a b : store) : bool :=
+Definition stores_agree (us : list name) (a b : store) : bool :=
   forallb (fun u => oprofile_eqb (find a u) (find b u)) us.
 Definition resp_eqb (a b : resp) : bool :=
   match a, b with
